@@ -53,7 +53,7 @@ for p in props:
     })
 m = {
  "version": 1,
- "setup_cmd": "cd /verif/harness && CARGO_NET_OFFLINE=true cargo build --release --offline " + " ".join("--bin " + c['property_id'].lower() for c in checks) + " && cargo build --profile ubcheck --offline --bin c10 && cargo build --profile checked --offline " + " ".join("--bin " + c['property_id'].lower() for c in checks if c['property_id'] in ('C01', 'C02', 'C20')),
+ "setup_cmd": "cd /verif/harness && CARGO_NET_OFFLINE=true cargo build --release --offline " + " ".join("--bin " + c['property_id'].lower() for c in checks) + " && cargo build --profile ubcheck --offline --bin c10 && cargo build --profile checked --offline " + " ".join("--bin " + c['property_id'].lower() for c in checks if c['property_id'] in ('C01', 'C02')),
  "hooks": {"guard": "cfg(icy_engine_verif)", "enable": "rustflags = [\"--cfg\", \"icy_engine_verif\"] in /verif/harness/.cargo/config.toml (every ./check build uses it)",
            "baseline_off_cmd": "cd /repo && cargo test --workspace --no-fail-fast --offline",
            "source_commits": hook_commits, "add_only": True},
